@@ -232,6 +232,13 @@ HUGE = ["sorted", "min", "max", "sum", "list", "tuple", "set", "dict", "nlargest
 
 def check_special(case, runner, kind):
     record = []
+    if case.get("real_loop"):
+        Ctx.track = True
+        try:
+            return under_asyncio(lambda: _special(case, runner, kind, record))
+        finally:
+            Ctx.track = False
+            Ctx.created.clear()
     undo = install_traps(record)
     Ctx.track = True
     try:
@@ -416,7 +423,7 @@ from vf import env
 env.setup()
 import asyncstdlib
 at_import = list(record)
-from vf.core import build
+from vf.core import build, run_sync, consumer_view
 from vf.driver import run, loop_mode, close_orphans
 from vf.props import c18
 cases = json.load(sys.stdin)
@@ -428,7 +435,11 @@ for case in cases:
         outcome = run(b.ctx, c18.tool_task(b, case))
         close_orphans(b.ctx)
     if outcome[0] != "return":
-        failed.append([case["tool"], repr(outcome)[:200]])
+        # data-dependent errors (empty input, unorderable or grumpy items ...) are fine iff the stdlib raises too
+        ref = consumer_view(run_sync(dict(case, plan=case.get("plan") or [])).ctx.log)
+        ref_exc = ref[-1][2] if ref and ref[-1][0] == "raise" else None
+        if outcome[0] != "raise" or type(outcome[1]).__name__ != ref_exc:
+            failed.append([case["tool"], repr(outcome)[:200], ref_exc])
     done += 1
 print(json.dumps({"done": done, "at_import": at_import, "accessed": record, "failed": failed,
                   "module": asyncstdlib.__file__}))
@@ -446,7 +457,7 @@ def check_battery(case):
     out = json.loads(proc.stdout.strip().splitlines()[-1])
     if out["at_import"] or out["accessed"]:
         raise Violation("C17/subprocess/asyncio-loop-access-at-import-or-use", f"{out['at_import']} {out['accessed'][:3]}")
-    bad = [f for f in out["failed"] if not any(n in f[1] for n in ("TypeError", "ValueError", "GrumpyError"))]
+    bad = out["failed"]
     if bad:
         raise Violation("C17/subprocess/operation-failed-without-asyncio-loop", f"{bad[:2]}")
     return {"evaluations": out["done"], "nontrivial": [f"op{i}" for i in range(out["done"])],
@@ -509,9 +520,100 @@ def check_tee_close(case):
 
 
 @st.composite
+def groupby_conc_cases(draw):
+    return {"runs": draw(st.lists(st.integers(1, 3), min_size=1, max_size=4)), "susp": draw(st.integers(1, 2)),
+            "take": draw(st.integers(0, 3)), "advances": draw(st.integers(1, 3)),
+            "choices": draw(st.lists(st.integers(0, 2), max_size=30))}
+
+
+def check_groupby_concurrent(case):
+    """one task reads a group while another advances the groupby (the documentation calls that unsafe for the
+    DATA; whatever it does, every suspension must still belong to a user awaitable)"""
+    import asyncstdlib as a
+    from ..driver import Scheduler
+
+    record = []
+    undo = install_traps(record)
+    try:
+        ctx = Ctx("a")
+        keys = [k for k, n in enumerate(case["runs"]) for _ in range(n)]
+
+        class Source:
+            def __init__(self):
+                self.i = 0
+
+            def __aiter__(self):
+                return self
+
+            async def __anext__(self):
+                for _ in range(case["susp"]):
+                    await ctx.suspend(("fetch", self.i))
+                if self.i >= len(keys):
+                    raise StopAsyncIteration
+                self.i += 1
+                return keys[self.i - 1]
+
+        gb = a.groupby(Source())
+        groups = []
+
+        async def reader():
+            try:
+                _, group = await gb.__anext__()
+            except StopAsyncIteration:
+                return
+            groups.append(group)
+            for _ in range(case["take"]):
+                try:
+                    await group.__anext__()
+                except (StopAsyncIteration, RuntimeError):
+                    return
+
+        async def advancer():
+            await ctx.suspend(("advancer", 0))
+            for _ in range(case["advances"]):
+                try:
+                    await gb.__anext__()
+                except (StopAsyncIteration, RuntimeError):
+                    return
+
+        sched = Scheduler(ctx, [("reader", reader()), ("advancer", advancer())], case["choices"], max_steps=800)
+        sched.run()
+    finally:
+        undo()
+    if record:
+        raise Violation("C17/groupby-concurrent/asyncio-loop-access", f"{record[:3]}")
+    if ctx.foreign:
+        raise Violation("C17/groupby-concurrent/foreign-suspension",
+                        f"{[repr(x)[:60] for x in ctx.foreign[:3]]} config={case}")
+    if sched.verdict:
+        raise Violation(f"C17/groupby-concurrent/{sched.verdict}", f"config={case}")
+    errs = ctx.protocol_errors()
+    if errs:
+        raise Violation(f"C17/groupby-concurrent/{errs[0][0]}", f"{errs[:2]}")
+
+
+@st.composite
 def batteries(draw, tier):
     names = draw(st.lists(st.sampled_from(ALL), min_size=12, max_size=12))
     return {"cases": [draw(c18.tool_cases(n, tier)) for n in names]}
+
+
+def check_cm_program(case):
+    """the generator programs of C13 with suspensions inside the generator: here only the token protocol counts"""
+    from . import c13
+
+    try:
+        c13.check(case)
+    except Violation as v:
+        if "not-driven-by-the-loop" in v.bucket:
+            raise Violation("C17/contextmanager/generator-suspension-not-driven-by-the-loop", v.detail) from None
+    return None
+
+
+def cm_programs():
+    from . import c13
+
+    return [c for c in c13.table() if c["susp"] == 1 and c["first"] == "yield"]
 
 
 def shards(tier):
@@ -524,13 +626,17 @@ def shards(tier):
                 ("op-scoped_iter", c18.scoped_cases, c18.run_scoped)]
     for name, strat, runner in specials:
         out.append(Shard(name, (lambda case, runner=runner, name=name: check_special(case, runner, name)),
-                         strategy=strat(tier), n=150, nontrivial=lambda c: False, thorough_mult=15))
+                         strategy=with_real_loop(strat(tier)), n=150, nontrivial=lambda c: False, thorough_mult=15))
     out += [Shard(f"sync-long-{name}", check_sync, strategy=sync_cases(name, long=True), n=25,
                   nontrivial=lambda c: True, thorough_mult=10) for name in ALL]
     out += [Shard(f"sync-huge-{name}", check_sync, strategy=huge_cases(name).map(lambda c: dict(c, real_loop=True)), n=2,
                   nontrivial=lambda c: True, thorough_mult=2) for name in HUGE if name in TOOLS]
     out.append(Shard("tee-concurrent-close", check_tee_close, strategy=tee_close_cases(), n=400,
                      nontrivial=lambda c: True, thorough_mult=10))
+    out.append(Shard("groupby-concurrent", check_groupby_concurrent, strategy=groupby_conc_cases(), n=400,
+                     nontrivial=lambda c: True, thorough_mult=10))
+    out.append(Shard("contextmanager-programs", check_cm_program, cases=cm_programs,
+                     nontrivial=lambda c: c["handler"] != "none", exhaustive=True))
     out.append(Shard("sync-adapters", check_adapter, cases=lambda: [{"adapter": k} for k in _adapters()],
                      nontrivial=lambda c: True, exhaustive=True))
     out.append(Shard("no-asyncio-subprocess", check_battery, strategy=batteries(tier), n=4,
